@@ -535,7 +535,7 @@ namespace {
         c->id = k.next_conn++;
         c->server_port = server_port;
         c->client_port = k.next_ephemeral++;
-        c->d[0].np = c2s ? *c2s : draw_params(k.faults.client_side); // side 0 = client
+        c->d[0].np = c2s ? *c2s : (k.faults.randomize_c2s ? draw_params(k.faults.client_side) : k.faults.client_side); // side 0 = client
         c->d[1].np = s2c ? *s2c : draw_params(k.faults.server_side); // side 1 = server
         return c;
     }
@@ -1085,6 +1085,7 @@ int __wrap_accept4(int fd, struct sockaddr* addr, socklen_t* alen, int flags)
     int nfd = install(std::move(s));
     sp->stats_idx = new_stream_stats(nfd);
     k.sstats[static_cast<size_t>(sp->stats_idx)].conn_id = c->id;
+    k.sstats[static_cast<size_t>(sp->stats_idx)].accepted = true;
     c->e[1].file = sp;
     fill_addr(addr, alen, c->client_port);
     sim::rec().stats["accepted"]++;
